@@ -303,15 +303,19 @@ func run(c *Case) (coq string, site string, in []byte, refLoc []byte) {
 		return fmt.Sprintf("IProto (Some %s) %s", B, L), "Address.ProtoDecode", c.B, c.Loc
 	case "IWire":
 		var p *types.ProtoTransaction
+		wb := c.B
+		if wb == nil {
+			wb = []byte{} // present but empty on the wire (a replayed case has lost the distinction)
+		}
 		switch c.Site {
 		case "to":
-			p = protoQuaiTx(c.B, nil)
+			p = protoQuaiTx(wb, nil)
 		case "access_list":
-			p = protoQuaiTx(refNormalize([]byte{loc.BytePrefix()}), c.B)
+			p = protoQuaiTx(refNormalize([]byte{loc.BytePrefix()}), wb)
 		case "etx_to":
-			p = protoEtx(c.B, refNormalize([]byte{0x77}))
+			p = protoEtx(wb, refNormalize([]byte{0x77}))
 		case "etx_sender":
-			p = protoEtx(refNormalize([]byte{0x77}), c.B)
+			p = protoEtx(refNormalize([]byte{0x77}), wb)
 		}
 		tx, err := wireDecode(p, loc)
 		if err != nil {
